@@ -490,6 +490,13 @@ def fixed_late_duplicate_scenarios():
                       'plan': [('good', 1, False), ('good', 1, False)], 'plans': [[('good', 1, False)], [('good', 1, False)]],
                       'script': {'pending': [], 'attempts': [(True, [(b''.join(fa), 1)]), (True, [(second, 1)]), (True, []), (True, [])], 'idle': 13}}
                 out.append((f'{name}/{a.label}+{b.label}', sc))
+            # the first request ends inside a frame (its answer is cut off and nothing else arrives); the second one is answered at
+            # once: it must not inherit the half-received frame
+            for cut in (3, 7, len(fa[0]) - 1):
+                sc = {'retries': 0, 'delay': 200, 'reqs': [a, b],
+                      'plan': [('truncated', 1), ('good', 1, False)], 'plans': [[('truncated', 1)], [('good', 1, False)]],
+                      'script': {'pending': [], 'attempts': [(True, [(fa[0][:cut], 1)]), (True, [(b''.join(fb), 1)])], 'idle': 13}}
+                out.append((f'cut-at-{cut}-then-answered/{a.label}+{b.label}', sc))
     return out
 
 
